@@ -138,6 +138,26 @@ for ty in ["TensorView<{T}, Tensor<{T}, 2>, 2>", "TensorRange<{T}, Tensor<{T}, 3
     fam("view@source", ty, AS_T)
 fam("view@source", "TensorView<{T}, &'static Tensor<{T}, 2>, 2>", (lambda T, S: T.send and T.sync, lambda T, S: T.sync))
 fam("view@source", "MatrixView<{T}, &'static Matrix<{T}>>", (lambda T, S: T.send and T.sync, lambda T, S: T.sync))
+# every tensor / matrix view adaptor at the three kinds of source the library documents — owned,
+# shared reference, mutable reference — and all four element kinds (Send+Sync f64, Send-only Cell<f64>,
+# Sync-only PhantomData<MutexGuard>, neither Rc<f64>): with a shared-reference source a `&Tensor<T>`
+# crosses the thread boundary (needs `T: Sync`) and the adaptor's own `PhantomData<T>` marker needs `T: Send`
+REF_SRC = (lambda T, S: T.send and T.sync, lambda T, S: T.sync)
+for adaptor, d in [("TensorView", "2"), ("TensorAccess", "2"), ("TensorTranspose", "2"), ("TensorRange", "2"),
+                   ("TensorMask", "2"), ("TensorRename", "2"), ("TensorReverse", "2"), ("TensorIndex", "3, 1"),
+                   ("TensorExpansion", "2, 1")]:
+    dim = d.split(",")[0]
+    fam("view@source", f"{adaptor}<{{T}}, Tensor<{{T}}, {dim}>, {d}>", AS_T)
+    fam("view@source", f"{adaptor}<{{T}}, &'static mut Tensor<{{T}}, {dim}>, {d}>", AS_T)
+    fam("view@source", f"{adaptor}<{{T}}, &'static Tensor<{{T}}, {dim}>, {d}>", REF_SRC)
+for adaptor in ["MatrixView", "MatrixRange", "MatrixReverse"]:
+    fam("view@source", f"{adaptor}<{{T}}, Matrix<{{T}}>>", AS_T)
+    fam("view@source", f"{adaptor}<{{T}}, &'static mut Matrix<{{T}}>>", AS_T)
+    fam("view@source", f"{adaptor}<{{T}}, &'static Matrix<{{T}}>>", REF_SRC)
+# iterators over a view of a borrowed tensor (a shared borrow inside the source)
+fam("iterator(shared)", "TensorReferenceIterator<'static, {T}, TensorView<{T}, &'static Tensor<{T}, 2>, 2>, 2>",
+    (lambda T, S: T.sync, lambda T, S: T.sync))
+fam("iterator(mut/owned)", "TensorOwnedIterator<{T}, TensorAccess<{T}, Tensor<{T}, 2>, 2>, 2>", AS_T)
 # -- iterators (at the documented sources; struct bounds require a real source) ------------------
 for ty in ["TensorReferenceIterator<'static, {T}, Tensor<{T}, 2>, 2>", "ColumnIterator<'static, {T}>",
            "RowIterator<'static, {T}>", "ColumnMajorIterator<'static, {T}>", "RowMajorIterator<'static, {T}>",
